@@ -1548,8 +1548,11 @@ class WassersteinDistanceNewton(VariationalWassersteinDistance):
             self.darcy_init.copy(), rhs.copy(), solution_i
         )
 
-        # Initialize distance in case below iteration fails
-        new_distance = 0
+        # Initialize distance (cost of the initial flux) in case below iteration fails
+        new_distance = self.l1_dissipation(solution_i[self.flux_slice])
+
+        # Status of the iteration, only set if the stopping criteria are met
+        converged = False
 
         # Initialize container for storing the convergence history
         convergence_history = {
@@ -1577,7 +1580,8 @@ class WassersteinDistanceNewton(VariationalWassersteinDistance):
         # Newton iteration
         for iter in range(num_iter):
             # It is possible that the linear solver fails. In this case, we simply
-            # stop the iteration and return the current solution.
+            # stop the iteration and return the last valid iterate (and its distance).
+            last_valid_iterate = (solution_i.copy(), new_distance)
             try:
                 # Keep track of old flux, and old distance
                 old_solution_i = solution_i.copy()
@@ -1685,9 +1689,11 @@ class WassersteinDistanceNewton(VariationalWassersteinDistance):
                             < tol_distance
                         )
                     ):
+                        converged = True
                         break
             except Exception:
                 warnings.warn("Newton iteration abruptly stopped due to some error.")
+                solution_i, new_distance = last_valid_iterate
                 break
 
         # Summarize profiling (time in seconds, memory in GB)
@@ -1696,7 +1702,7 @@ class WassersteinDistanceNewton(VariationalWassersteinDistance):
 
         # Define performance metric
         info = {
-            "converged": iter < num_iter - 1,
+            "converged": converged,
             "number_iterations": iter,
             "convergence_history": convergence_history,
             "timings": total_timings,
@@ -1825,8 +1831,8 @@ class WassersteinDistanceBregman(VariationalWassersteinDistance):
             self.darcy_init.copy(), rhs.copy(), solution_i
         )
 
-        # Initialize distance in case below iteration fails
-        new_distance = 0
+        # Status of the iteration, only set if the stopping criteria are met
+        converged = False
 
         # Initialize container for storing the convergence history
         convergence_history = {
@@ -1867,6 +1873,9 @@ class WassersteinDistanceBregman(VariationalWassersteinDistance):
         old_force = flux - old_aux_flux
         old_distance = self.l1_dissipation(flux)
 
+        # Initialize distance (cost of the initial flux) in case below iteration fails
+        new_distance = old_distance
+
         iter = 0
 
         # Control the update of the Bregman weight
@@ -1875,7 +1884,8 @@ class WassersteinDistanceBregman(VariationalWassersteinDistance):
 
         for iter in range(num_iter):
             # It is possible that the linear solver fails. In this case, we simply
-            # stop the iteration and return the current solution.
+            # stop the iteration and return the last valid iterate (and its distance).
+            last_valid_iterate = (flux, new_distance)
             try:
                 # (Possibly) update the regularization, based on the current approximation
                 # of the flux - use the inverse of the norm of the flux
@@ -2047,6 +2057,7 @@ class WassersteinDistanceBregman(VariationalWassersteinDistance):
                             < tol_residual
                         )
                     ):
+                        converged = True
                         break
 
                 # Update Bregman variables
@@ -2056,6 +2067,7 @@ class WassersteinDistanceBregman(VariationalWassersteinDistance):
 
             except Exception:
                 warnings.warn("Bregman iteration abruptly stopped due to some error.")
+                flux, new_distance = last_valid_iterate
                 break
 
         # Solve for the pressure by solving a single Newton iteration
@@ -2074,7 +2086,7 @@ class WassersteinDistanceBregman(VariationalWassersteinDistance):
 
         # Define performance metric
         info = {
-            "converged": iter < num_iter - 1,
+            "converged": converged,
             "number_iterations": iter,
             "convergence_history": convergence_history,
             "timings": total_timings,
